@@ -69,6 +69,23 @@ impl Lift for MulShiftedValue {
         _state: &TypeCheckerState,
     ) -> crate::error::unification::Result<RuntimeBoxedVal> {
         fn insert_multiplicative_shifts(data: &RSVD) -> Option<RSVD> {
+            // A left shift by a constant is the same operation as the multiplication
+            if let RSVD::LeftShift { shift, value } = data {
+                let (RSVD::KnownData { value: shift }, RSVD::SubWord { .. }) =
+                    (shift.data().constant_fold(), value.data())
+                else {
+                    return None;
+                };
+                let offset = usize::from(shift);
+                if offset >= WORD_SIZE_BITS {
+                    return None;
+                }
+                return Some(RSVD::Shifted {
+                    offset,
+                    value: value.clone().transform_data(insert_multiplicative_shifts),
+                });
+            }
+
             let RSVD::Multiply { left, right } = data else {
                 return None;
             };
